@@ -65,9 +65,18 @@ def run_timers(c, P):
     sc = Script(hconn.server_stream([]), cuts='one', end='silence', silent_waits=10 ** 9)
     w.default_script = sc
 
+    hs = {'done': False}
+
     def advance(w_, socks, ready, timeout, scale):
         import select as _select
         tmo = timeout / scale
+        if not hs['done'] and P.get('hs_delay', True):
+            # the handshake response arrives a symbolic time after the TCP connect (0 <= d <= poll)
+            hs['done'] = True
+            d = c.real('hs_delay')
+            if c.concrete is None:
+                c.assume(z3.And(d.e >= 0, d.e <= R(tmo)))
+            w_.clock = w_.clock + d
         if isinstance(tmo, float):
             from fractions import Fraction
             tmo = Fraction(timeout) / Fraction(scale)
